@@ -44,6 +44,9 @@ type certPool struct {
 }
 
 func (p *certPool) id(c *x509.Certificate, label string) int64 {
+	if c == nil {
+		return 0
+	}
 	for i, x := range p.certs {
 		if x.Equal(c) {
 			return int64(i + 1)
@@ -54,7 +57,12 @@ func (p *certPool) id(c *x509.Certificate, label string) int64 {
 	return int64(len(p.certs))
 }
 
-func (p *certPool) get(id int64) *x509.Certificate { return p.certs[id-1] }
+func (p *certPool) get(id int64) *x509.Certificate {
+	if id == 0 {
+		return nil // a nil element in the slice a store returns
+	}
+	return p.certs[id-1]
+}
 
 // ---------- recording trust store ----------
 
@@ -83,8 +91,9 @@ type chainEnv struct {
 type storeDesc struct {
 	Type  string  `json:"type"`
 	Name  string  `json:"name"`
-	Certs []int64 `json:"certs"`
+	Certs []int64 `json:"certs"` // 0 = a nil certificate pointer
 	Fail  bool    `json:"fail,omitempty"`
+	Nil   bool    `json:"nil_slice,omitempty"` // the store answers (nil, nil)
 }
 
 type stmtDesc struct {
@@ -98,6 +107,8 @@ type stmtDesc struct {
 
 type c03Case struct {
 	Family  string      `json:"family"`
+	Repo    string      `json:"repository,omitempty"` // artifact path of the reference (default TestScope)
+	Before  []string    `json:"earlier_calls_on_same_verifier,omitempty"`
 	Chain   string      `json:"chain"`
 	Format  string      `json:"format"`
 	SA      bool        `json:"signing_authority"`
@@ -270,48 +281,59 @@ func runC03(a *Args) error {
 	writeCert("tsa", "b", "root.pem", true, n3.ids[2])
 	writeCert("tsa", "c", "root2.pem", true, n2.ids[1], idTSARoot2)
 	writeCert("tsa", "bad", "leaf.pem", true, idTSALeaf) // not a root: refused
+	writeCert("ca", ".dot", "root.pem", true, n3.ids[2])
+	writeCert("ca", "A", "u.pem", true, idUnrelRoot) // differs from ca/a by case only
+	writeCert("signingAuthority", "A", "root.pem", true, n3.ids[2])
+	writeCert("signingAuthority", "...", "root2.pem", true, n2.ids[1])
+	writeCert("ca", "tsa", "root2.pem", true, n2.ids[1])
 	os.Symlink(filepath.Join(realRoot, "truststore", "x509", "ca", "a"), filepath.Join(realRoot, "truststore", "x509", "ca", "link"))
 	os.WriteFile(filepath.Join(realRoot, "truststore", "x509", "ca", "file"), []byte("x"), 0o644)
-	realNames := []string{"a", "b", "c", "d", "empty", "bad", "multi", "self", "link", "file", "nonexistent"}
+	realNames := []string{"a", "b", "c", "d", "empty", "bad", "multi", "self", "link", "file", "nonexistent", ".dot", "A", "...", "tsa"}
 	realInner := truststore.NewX509TrustStore(dir.NewSysFS(realRoot))
 
 	// ---------- running one case ----------
 	var id int64
-	runCase := func(c *c03Case) {
-		my := id
-		id++
-		if !w.Want(my) {
-			return
+	digestPart := strings.TrimPrefix(TestRef, TestScope)
+	type session struct {
+		v      notation.Verifier
+		rec    *recStore
+		inner  truststore.X509TrustStore
+		mock   *MockStore
+		selIdx int
+	}
+	fillMock := func(m *MockStore, stores []storeDesc) {
+		for k := range m.Certs {
+			delete(m.Certs, k)
 		}
-		e := envs[c.Chain]
-		c.ChainID = e.ids
-		scheme := schemes[0]
-		if c.SA {
-			scheme = schemes[1]
+		for k := range m.Fail {
+			delete(m.Fail, k)
 		}
-		ekey := c.Format + "|" + string(scheme) + "|" + strconv.Itoa(c.TS)
-		// trust store
-		var inner truststore.X509TrustStore
-		if c.Real {
-			inner = realInner
-		} else {
-			m := NewMockStore()
-			for _, s := range c.Stores {
-				k := StoreKey{Type: truststore.Type(s.Type), Name: s.Name}
+		for _, s := range stores {
+			k := StoreKey{Type: truststore.Type(s.Type), Name: s.Name}
+			if s.Nil {
+				m.Certs[k] = nil
+			} else {
 				m.Certs[k] = []*x509.Certificate{}
-				for _, cid := range s.Certs {
-					m.Certs[k] = append(m.Certs[k], pool.get(cid))
-				}
-				if s.Fail {
-					m.Fail[k] = true
-				}
 			}
-			inner = m
+			for _, cid := range s.Certs {
+				m.Certs[k] = append(m.Certs[k], pool.get(cid))
+			}
+			if s.Fail {
+				m.Fail[k] = true
+			}
 		}
-		rec := &recStore{inner: inner}
-		// policy document
+	}
+	setup := func(my int64, c *c03Case) *session {
+		ss := &session{selIdx: -1}
+		if c.Real {
+			ss.inner = realInner
+		} else {
+			ss.mock = NewMockStore()
+			fillMock(ss.mock, c.Stores)
+			ss.inner = ss.mock
+		}
+		ss.rec = &recStore{inner: ss.inner}
 		doc := &trustpolicy.OCIDocument{Version: "1.0"}
-		selIdx := -1
 		for i, s := range c.Stmts {
 			var override map[trustpolicy.ValidationType]trustpolicy.ValidationAction
 			if s.Level != "skip" {
@@ -328,21 +350,37 @@ func runC03(a *Args) error {
 			}
 			doc.TrustPolicies = append(doc.TrustPolicies, p)
 			if s.Name == "sel" {
-				selIdx = i
+				ss.selIdx = i
 			}
 		}
-		v, err := verifier.NewVerifierWithOptions(rec, verifier.VerifierOptions{OCITrustPolicy: doc})
+		v, err := verifier.NewVerifierWithOptions(ss.rec, verifier.VerifierOptions{OCITrustPolicy: doc})
 		if err != nil {
 			panic(fmt.Sprintf("c03: case %d: generated policy rejected: %v", my, err))
 		}
+		ss.v = v
+		if c.Mutate != nil && ss.selIdx >= 0 {
+			doc.TrustPolicies[ss.selIdx].TrustStores = append([]string(nil), c.Mutate...)
+		}
+		return ss
+	}
+	observe := func(my int64, c *c03Case, ss *session, emit bool) {
+		e := envs[c.Chain]
+		c.ChainID = e.ids
+		scheme := schemes[0]
+		if c.SA {
+			scheme = schemes[1]
+		}
+		if c.Repo == "" {
+			c.Repo = TestScope
+		}
+		ekey := c.Format + "|" + string(scheme) + "|" + strconv.Itoa(c.TS)
+		inner, rec, selIdx, v := ss.inner, ss.rec, ss.selIdx, ss.v
+		rec.calls = nil
 		finalStores := func(i int) []string {
 			if i == selIdx && c.Mutate != nil {
 				return c.Mutate
 			}
 			return c.Stmts[i].Stores
-		}
-		if c.Mutate != nil && selIdx >= 0 {
-			doc.TrustPolicies[selIdx].TrustStores = append([]string(nil), c.Mutate...)
 		}
 		// what the store answers, asked from the store itself (fs of the model, and the
 		// error text that identifies a failing store)
@@ -399,7 +437,10 @@ func runC03(a *Args) error {
 			}
 		}
 		// run
-		outcome, verr := v.Verify(context.Background(), desc, e.env[ekey], notation.VerifierVerifyOptions{ArtifactReference: TestRef, SignatureMediaType: c.Format})
+		outcome, verr := v.Verify(context.Background(), desc, e.env[ekey], notation.VerifierVerifyOptions{ArtifactReference: c.Repo + digestPart, SignatureMediaType: c.Format})
+		if !emit {
+			return
+		}
 		// observation
 		authTerm := "None"
 		c.Auth = "absent"
@@ -462,7 +503,7 @@ func runC03(a *Args) error {
 		for i, x := range e.ids {
 			chainTerms[i] = CN(x)
 		}
-		in := CApp("mk_input", sch, CList(stmtTerms), CStr(TestScope), CList(fsTerms), CList(chainTerms), CBool(e.tokOK[ekey]))
+		in := CApp("mk_input", sch, CList(stmtTerms), CStr(c.Repo), CList(fsTerms), CList(chainTerms), CBool(e.tokOK[ekey]))
 		obs := CApp("mk_obs", authTerm, CList(callTerms), CBool(c.Stop))
 		term := CApp("mk_case", CN(my), in, obs)
 		placed := c.Real
@@ -495,6 +536,40 @@ func runC03(a *Args) error {
 		w.Count("tsa_store_called", fmt.Sprint(tsaCalled))
 		for _, l := range c.Labels {
 			w.Count("scenario", l)
+		}
+	}
+	runCase := func(c *c03Case) {
+		my := id
+		id++
+		if !w.Want(my) {
+			return
+		}
+		observe(my, c, setup(my, c), true)
+	}
+	// a history: ONE verifier and ONE trust store object, several Verify calls in sequence;
+	// between calls the store content, the scheme, the chain and the repository change.
+	// Every step is its own case, judged on its own input (the property has no memory).
+	runHistory := func(steps []*c03Case) {
+		first := id
+		id += int64(len(steps))
+		last := -1
+		for k := range steps {
+			if w.Want(first + int64(k)) {
+				last = k
+			}
+		}
+		if last < 0 {
+			return
+		}
+		ss := setup(first, steps[0])
+		var before []string
+		for k := 0; k <= last; k++ {
+			if k > 0 {
+				fillMock(ss.mock, steps[k].Stores)
+			}
+			steps[k].Before = append([]string(nil), before...)
+			observe(first+int64(k), steps[k], ss, w.Want(first+int64(k)))
+			before = append(before, fmt.Sprintf("chain=%s sa=%v repo=%s auth=%s", steps[k].Chain, steps[k].SA, steps[k].Repo, steps[k].Auth))
 		}
 	}
 
@@ -863,6 +938,320 @@ func runC03(a *Args) error {
 			c.Stores = append(c.Stores, storeDesc{Type: t, Name: Pick(rng, []string{"a:b", "", "a"}), Certs: []int64{envs[c.Chain].ids[len(envs[c.Chain].ids)-1]}})
 		}
 		runCase(c)
+	}
+	// ---------- family 5: rarely used legal store names (case pairs, leading dots, type words) ----------
+	saveNames := names
+	names = []string{"a", "A", "b", "B", ".a", "..a", "...", "-", "_", "ca", "tsa", "signingAuthority", "a.b", "0"}
+	nRare := 400
+	if a.Tier == "thorough" {
+		nRare = 5000
+	}
+	for k := 0; k < nRare; k++ {
+		c := genRandom()
+		c.Family = "rare-names"
+		if rng.Chance(1, 6) && len(c.Stores) > 0 { // empty vs nil vs a nil element
+			j := rng.Intn(len(c.Stores))
+			switch rng.Intn(3) {
+			case 0:
+				c.Stores[j].Certs, c.Stores[j].Nil = nil, true
+			case 1:
+				c.Stores[j].Certs = []int64{}
+			case 2:
+				c.Stores[j].Certs = append([]int64{0}, c.Stores[j].Certs...)
+			}
+			c.Labels = append(c.Labels, "empty-nil-variant")
+		}
+		runCase(c)
+	}
+	names = saveNames
+
+	// ---------- family 6: positions, systematically ----------
+	// the store holding the trusted certificate at every position p of the list, the odd
+	// element at every other position q, fillers elsewhere; the matched chain certificate
+	// and its position inside the store's own certificate list rotate
+	posKinds := []string{"req-fails", "req-missing", "othertype-samename-fails", "only-in-tsa", "only-in-othertype", "dup-good",
+		"req-empty", "req-nil-slice", "req-nil-cert", "case-variant-fails", "case-variant-noise", "case-variant-good", "twin-only"}
+	insertAt := func(l []int64, p int, x int64) []int64 {
+		if p > len(l) {
+			p = len(l)
+		}
+		out := append([]int64(nil), l[:p]...)
+		out = append(out, x)
+		return append(out, l[p:]...)
+	}
+	pk := 0
+	for _, sa := range []bool{false, true} {
+		for L := 3; L <= 4; L++ {
+			for p := 0; p < L; p++ {
+				for q := 0; q < L; q++ {
+					if p == q {
+						continue
+					}
+					for _, kind := range posKinds {
+						pk++
+						chainName := []string{"n3", "n4", "n2", "n3", "n1"}[pk%5]
+						e := envs[chainName]
+						cert := e.ids[pk%len(e.ids)]
+						req, oth := "ca", "signingAuthority"
+						if sa {
+							req, oth = oth, req
+						}
+						c := &c03Case{Family: "positions", Chain: chainName, Format: formats[pk%2], SA: sa, TS: (pk / 2) % 2,
+							Labels: []string{"pos:" + kind, fmt.Sprintf("good@%d-odd@%d-of-%d", p, q, L)}}
+						noise := []int64{e.twins[0], idUnrelRoot}
+						good := storeDesc{Type: req, Name: "g", Certs: insertAt(noise, pk%3, cert)}
+						list := make([]string, L)
+						list[p] = req + ":g"
+						fi := 0
+						for j := range list {
+							if j != p && j != q {
+								fi++
+								n := "f" + strconv.Itoa(fi)
+								list[j] = req + ":" + n
+								c.Stores = append(c.Stores, storeDesc{Type: req, Name: n, Certs: []int64{idUnrelLeaf}})
+							}
+						}
+						odd := storeDesc{Type: req, Name: "o", Certs: []int64{idUnrelRoot}}
+						addOdd := true
+						switch kind {
+						case "req-fails":
+							odd.Fail, odd.Certs = true, []int64{cert}
+						case "req-missing":
+							addOdd = false
+						case "othertype-samename-fails":
+							odd = storeDesc{Type: oth, Name: "g", Certs: []int64{cert}, Fail: true}
+						case "only-in-tsa":
+							good.Certs = noise
+							odd = storeDesc{Type: "tsa", Name: "g", Certs: []int64{cert, idTSARoot}}
+						case "only-in-othertype":
+							good.Certs = noise
+							odd = storeDesc{Type: oth, Name: "g", Certs: []int64{cert}}
+						case "dup-good":
+							odd, addOdd = good, false
+						case "req-empty":
+							odd.Certs = []int64{}
+						case "req-nil-slice":
+							odd.Certs, odd.Nil = nil, true
+						case "req-nil-cert":
+							odd.Certs = []int64{0}
+						case "case-variant-fails":
+							odd = storeDesc{Type: req, Name: "G", Certs: []int64{cert}, Fail: true}
+						case "case-variant-noise":
+							odd = storeDesc{Type: req, Name: "G", Certs: noise}
+						case "case-variant-good":
+							good.Certs = noise
+							odd = storeDesc{Type: req, Name: "G", Certs: insertAt(noise, pk%3, cert)}
+						case "twin-only":
+							good.Certs = insertAt([]int64{idUnrelRoot}, pk%2, e.twins[len(e.twins)-1-pk%len(e.twins)])
+						}
+						list[q] = odd.Type + ":" + odd.Name
+						c.Stores = append(c.Stores, good)
+						if addOdd {
+							c.Stores = append(c.Stores, odd)
+						}
+						lvl := "strict"
+						if pk%3 == 0 {
+							lvl = "audit"
+						}
+						c.Stmts = []stmtDesc{{Name: "sel", Scopes: []string{TestScope}, Stores: list, Level: lvl}}
+						runCase(c)
+					}
+				}
+			}
+		}
+	}
+
+	// ---------- family 7: which statement is the applicable one, at every position ----------
+	type stmtKind struct {
+		name   string
+		scopes []string
+	}
+	kindsAll := []stmtKind{{"exact", []string{TestScope}}, {"wild", []string{"*"}}, {"foreign", []string{"reg.example/other", "reg.example/repo/sub"}},
+		{"casevar", []string{"Reg.Example/repo", "reg.example:5000/repo"}}}
+	refs := []string{TestScope, "reg.example/other", "reg.example/none", "Reg.Example/repo", "reg.example:5000/repo", "REG.EXAMPLE/repo", "reg.example/repo/sub"}
+	var perms [][]int
+	var permRec func(cur []int, used int)
+	permRec = func(cur []int, used int) {
+		if len(cur) == 4 {
+			perms = append(perms, append([]int(nil), cur...))
+			return
+		}
+		for x := 0; x < 4; x++ {
+			if used&(1<<x) == 0 {
+				permRec(append(cur, x), used|1<<x)
+			}
+		}
+	}
+	permRec(nil, 0)
+	sk := 0
+	for _, perm := range perms {
+		for goodAt := 0; goodAt < 4; goodAt++ { // which statement lists the store with the root
+			for _, sa := range []bool{false, true} {
+				sk++
+				e := envs["n3"]
+				req := "ca"
+				if sa {
+					req = "signingAuthority"
+				}
+				c := &c03Case{Family: "statement-positions", Chain: "n3", Format: formats[sk%2], SA: sa, TS: sk % 2, Repo: refs[sk%len(refs)]}
+				c.Stores = []storeDesc{{Type: req, Name: "good", Certs: []int64{e.ids[2]}}, {Type: req, Name: "noise", Certs: []int64{e.twins[0], idUnrelRoot}}}
+				drop := -1
+				if sk%4 == 0 { // no exact statement: the wildcard must be selected for TestScope
+					drop = 0
+				}
+				for _, x := range perm {
+					if x == drop {
+						continue
+					}
+					st := stmtDesc{Name: kindsAll[x].name, Scopes: kindsAll[x].scopes, Stores: []string{req + ":noise"}, Level: []string{"strict", "audit", "permissive"}[(sk+x)%3]}
+					if x == goodAt {
+						st.Stores = []string{req + ":noise", req + ":good"}
+					}
+					c.Stmts = append(c.Stmts, st)
+				}
+				c.Labels = []string{"good-listed-by:" + kindsAll[goodAt].name, "ref:" + c.Repo}
+				runCase(c)
+			}
+		}
+	}
+
+	// ---------- family 8: histories on ONE verifier and ONE trust store object ----------
+	type hstate struct {
+		sa     bool
+		repo   string
+		chain  string
+		rootAt map[string]bool // stores that hold the root of n3
+		fail   map[string]bool
+	}
+	hStores := []string{"ca:a", "signingAuthority:a", "ca:b", "signingAuthority:b", "ca:w", "signingAuthority:w", "tsa:t"}
+	hStmts := func(lvl string) []stmtDesc {
+		return []stmtDesc{
+			{Name: "A", Scopes: []string{TestScope}, Stores: []string{"ca:a", "signingAuthority:a", "tsa:t"}, Level: lvl},
+			{Name: "B", Scopes: []string{"reg.example/other"}, Stores: []string{"signingAuthority:b", "ca:b"}, Level: "strict"},
+			{Name: "W", Scopes: []string{"*"}, Stores: []string{"ca:w", "signingAuthority:w"}, Level: lvl},
+		}
+	}
+	hRepos := []string{TestScope, "reg.example/other", "reg.example/third"}
+	snapshot := func(h *hstate, k int, lvl string, label string) *c03Case {
+		c := &c03Case{Family: "history", Chain: h.chain, Format: formats[k%2], SA: h.sa, TS: k % 2, Repo: h.repo, Stmts: hStmts(lvl), Labels: []string{label}}
+		for _, sv := range hStores {
+			t, n, _ := strings.Cut(sv, ":")
+			sd := storeDesc{Type: t, Name: n, Certs: []int64{idUnrelRoot}, Fail: h.fail[sv]}
+			if t == "tsa" {
+				sd.Certs = []int64{idTSARoot}
+			}
+			if h.rootAt[sv] {
+				sd.Certs = append(sd.Certs, envs["n3"].ids[2])
+			}
+			c.Stores = append(c.Stores, sd)
+		}
+		return c
+	}
+	applyOp := func(h *hstate, op int) string {
+		switch op {
+		case 0:
+			return "repeat"
+		case 1:
+			k := "ca:a"
+			if h.sa {
+				k = "signingAuthority:a"
+			}
+			h.rootAt[k] = !h.rootAt[k]
+			return "toggle-root-in-" + k
+		case 2:
+			k := "ca:a"
+			if h.sa {
+				k = "signingAuthority:a"
+			}
+			h.fail[k] = !h.fail[k]
+			return "toggle-fail-of-" + k
+		case 3:
+			h.sa = !h.sa
+			return "switch-scheme"
+		case 4:
+			for j, r := range hRepos {
+				if r == h.repo {
+					h.repo = hRepos[(j+1)%len(hRepos)]
+					break
+				}
+			}
+			return "switch-repository"
+		case 5:
+			if h.chain == "n3" {
+				h.chain = "n2"
+			} else {
+				h.chain = "n3"
+			}
+			return "switch-chain"
+		case 6:
+			k := "ca:w"
+			if h.sa {
+				k = "signingAuthority:w"
+			}
+			h.rootAt[k] = !h.rootAt[k]
+			return "toggle-root-in-" + k
+		case 7:
+			k := "signingAuthority:b"
+			if h.sa {
+				k = "ca:b"
+			}
+			h.rootAt[k] = !h.rootAt[k]
+			return "toggle-root-in-othertype-" + k
+		}
+		return "?"
+	}
+	newState := func(sa bool, start int) *hstate {
+		h := &hstate{sa: sa, repo: TestScope, chain: "n3", rootAt: map[string]bool{}, fail: map[string]bool{}}
+		switch start {
+		case 0: // passes for A under both schemes
+			h.rootAt["ca:a"], h.rootAt["signingAuthority:a"] = true, true
+		case 1: // passes under x509 only
+			h.rootAt["ca:a"], h.rootAt["signingAuthority:b"] = true, true
+		case 2: // nothing trusted anywhere A looks
+			h.rootAt["ca:b"], h.rootAt["signingAuthority:w"] = true, true
+		}
+		return h
+	}
+	hk := 0
+	// every operator after every start, in both directions (X then op(X), op(X) then X)
+	for start := 0; start < 3; start++ {
+		for op := 0; op < 8; op++ {
+			for _, sa := range []bool{false, true} {
+				for dir := 0; dir < 2; dir++ {
+					hk++
+					lvl := []string{"strict", "audit"}[hk%2]
+					h := newState(sa, start)
+					c0 := snapshot(h, hk, lvl, "start")
+					lab := applyOp(h, op)
+					c1 := snapshot(h, hk+1, lvl, lab)
+					if dir == 0 {
+						runHistory([]*c03Case{c0, c1})
+					} else {
+						c1.Labels, c0.Labels = []string{"start"}, []string{"undo:" + lab}
+						runHistory([]*c03Case{c1, c0})
+					}
+				}
+			}
+		}
+	}
+	nHist := 60
+	if a.Tier == "thorough" {
+		nHist = 1500
+	}
+	for k := 0; k < nHist; k++ {
+		hk++
+		lvl := Pick(rng, []string{"strict", "audit", "permissive"})
+		h := newState(rng.Bool(), rng.Intn(3))
+		steps := []*c03Case{snapshot(h, hk, lvl, "start")}
+		for j := 1 + rng.Intn(3); j > 0; j-- {
+			lab := applyOp(h, rng.Intn(8))
+			if rng.Chance(1, 3) {
+				lab += "+" + applyOp(h, rng.Intn(8))
+			}
+			hk++
+			steps = append(steps, snapshot(h, hk, lvl, lab))
+		}
+		runHistory(steps)
 	}
 	return w.Close()
 }
